@@ -125,3 +125,8 @@ def distinct_compositions(rng, count, nmin=10, nmax=30):
             got.add(c)
             seen.append(c)
     return seen
+
+
+# valid one-letter sequences that happen to spell three-letter residue codes, file names or number-like words
+CODE_WORDS = ["ALA", "MET", "ARG", "SER", "LYSLYS", "GLYGLY", "ASPARGLYS", "METSERLYS", "LYSARGLYS", "GLYSERGLYSER", "HISTHRVALALA",
+              "TYRILEPHEASN", "ARGASPLYSGLYSERASPARGALALYSASP", "ALAGLY", "METHIS", "NAN", "INF", "GSPGRGLYS", "LAA", "GYLAAL"]
